@@ -17,7 +17,7 @@ REQUIRED = ['winning_votes_is_textbook', 'margins_is_textbook', 'pairwise_opposi
             'no_candidate_dropped_copeland', 'no_candidate_dropped_minimax', 'no_candidate_dropped_schulze',
             'cw_rankedpairs_witness', 'cw_kemeny_witness', 'rankedpairs_dropped_witness', 'minimax_never_loser_fixed',
             'benham_elimination_tie_witness', 'tideman_elimination_tie_witness', 'tideman_last_tie_witness',
-            'tidemanN_one', 'tideman_all_seats_witness']
+            'tidemanN_one', 'tideman_all_seats_example', 'lone_candidate_elected']
 UNPROVED = ['cw_rankedpairs (rankedPairs sc v 1 = ok [w]): FALSE as stated on the current code (cw_rankedpairs_witness: refusal '
             'although a Condorcet winner exists); proved instead: cw_rankedpairs_partial (whenever it answers, it answers [w])',
             'cw_kemeny (kemenyYoung v 1 = ok [w]): FALSE as stated on the current code (cw_kemeny_witness: refusal when a lower '
@@ -54,10 +54,12 @@ NOT_VERIFIED = ['dict insertion order is the protocol order (CPython dict semant
                 'of equal second-order scores is canonicalised), Schulze `all_candidates` and Kemeny-Young permutations '
                 '(results do not depend on it), the frozenset `unranked` and shared ranks in RankedToCondorcetVotes '
                 '(only the insertion order of the pairwise dictionary depends on it; Benham/Tideman results do not)',
-                'hybrids with Decimal / float ballot weights on profiles that contain a shared rank are under the oracle only (the '
-                'model computes on exact rationals and cannot reproduce the TypeError of the open finding '
-                'C05-*-nonrational-weights-shared-first-rank); non-dyadic float counts only go to the evaluators that never add or '
-                'subtract counts',
+                'reading: ballot weights are rational (int / Fraction; the interface is typed Dict[RankedVoteType, int]); Benham and '
+                'TidemanAlternative raise TypeError for Decimal / float weights once a first rank is shared (Gregory equal split, '
+                'as every STV configuration does) - outside the quantifier, not generated for the hybrids, not a finding; '
+                'Decimal / float weights only go to the converters; Decimal / float COUNTS of pairwise dictionaries only go to the '
+                'evaluators that merely compare counts (Copeland, Schulze, minimax and ranked pairs by winning votes / pairwise '
+                'opposition), never to margins or Kemeny-Young',
                 'minimax: float -inf (which survives only for a lone candidate) is modelled as a rational above all finite negated '
                 'counter-scores (get_n_best only compares)']
 EXHAUSTIVE = {'thorough': True}
@@ -134,6 +136,14 @@ def _hybrid_cases(rng, prof, tags, wtype='int', multi=True):
     """Benham, TidemanAlternative (Smith / Schwartz selector; one seat and several), both converters"""
     tags = list(tags) + (['wtype:' + wtype] if wtype != 'int' else [])
     m = len(CC.profile_cands(prof))
+    if wtype in ('decimal', 'float'):
+        # the hybrids are typed Dict[RankedVoteType, int] and share the STV transfer code, which raises TypeError for Decimal / float
+        # weights as soon as a first rank is shared; non-rational weights are outside C05's quantifier: converters only
+        for uab in (True, False):
+            c = {'op': 'to_condorcet', 'profile': prof, 'uab': uab, '_wtype': wtype,
+                 '_tags': tags + ['converter'] + ([] if uab else ['converter_no_bottom'])}
+            yield c
+        return
     out = [_mk_hybrid('benham', prof, tags), _mk_hybrid('tideman', prof, tags)]
     sw = _mk_hybrid('tideman', prof, tags + ['tideman_schwartz'])
     sw['smith'] = False
@@ -248,7 +258,7 @@ def _gen(rng, tier):
                 nt = CC.NTYPES[k % len(CC.NTYPES)]
                 votes = CC.retype_votes(votes, nt)
                 for c in _pairwise_cases(rng, votes, tags + ['ntype:' + nt],
-                                         evals=WT_EVALS_COMPARE_ONLY if nt == 'float_nd' else None):
+                                         evals=None if nt == 'fraction_all' else WT_EVALS_COMPARE_ONLY):
                     c['_ntype'] = nt
                     yield c
             else:
@@ -403,16 +413,6 @@ def impl(case):
     raise ValueError(case['op'])
 
 
-def model_line(case):
-    c = strip_case(case)
-    if case['op'] in ('benham', 'tideman') and case.get('_wtype') in ('decimal', 'float') \
-            and any(isinstance(it, list) for b, _ in case['profile'] for it in b):
-        # open finding C05-hybrid-decimal-shared-rank: Gregory's equal split raises TypeError for Decimal / float weights; the
-        # model works on exact rationals and cannot see the numeric type, so these cases are under the oracle only
-        return None
-    return c
-
-
 # ------------------------------------------------------------------------------------------------
 # oracle: the property on the implementation's observable, from d(x, y) = votes.get((x, y), 0) only
 
@@ -530,6 +530,9 @@ def oracle(case, obs):
     if err is not None and err not in DECLARED:
         out.append((f'raises:{err}' + (':single_candidate' if m <= 1 else ''), 'undeclared exception'))
         return out
+    # (0') a lone candidate takes the seat (hybrids; there is no pairwise contest to look at)
+    if hybrid and m == 1 and err is None and obs != [cands[0]]:
+        out.append(('lone_candidate_not_elected', f'only candidate {cands[0]}, got {obs}'))
     # (1) Condorcet winner, one seat
     if cw and n == 1 and (hybrid or name in CW_METHODS):
         if err is not None:
